@@ -1,4 +1,4 @@
-HOOK_COMMITS = ["d747c05", "verif hook: export piece splitting / substitution / hash pre-image helpers of the linker under build tag verif", "verif hook: export printUnquotedUTF16 under build tag verif"]
+HOOK_COMMITS = ["d747c05", "verif hook: export piece splitting / substitution / hash pre-image helpers of the linker under build tag verif", "verif hook: export printUnquotedUTF16 under build tag verif", "verif hook: synchronous access to a context's watch predicates under build tag verif", "verif hook: export css hex colour helpers under build tag verif"]
 
 TEXT = {
     "C07": {
@@ -50,6 +50,11 @@ TEXT = {
         "level": "Lean theorem (all keys, all requests) that applicable subpath patterns never tie in PATTERN_KEY_COMPARE, so esbuild's sorted first-match is Node's unique best match independent of JSON key order; the pattern selection of the real resolver is tied to the model by correspondence on a mock file system. Agreement of whole resolutions with Node is decided by asking Node itself on generated package trees: a search.",
         "note": "Trusted: Lean kernel, correspondence harness, Node 20 as oracle. Legacy trailing-slash mappings and specifiers ending in / are excluded as in the property; percent-encoded specifiers are not generated (esbuild does not URL-decode them: candidate finding, not yet probed).",
         "technique": "Lean 4 proof on hand-written model + differential correspondence; Node-as-oracle resolution search",
+    },
+    "C12": {
+        "level": "Lean theorems that hex colour shortening is applied exactly when it preserves the colour value (all 32-bit colours), tied by correspondence. Cascade preservation of minification, lowering and @import bundling is checked by an independent cascade evaluator over an enumerated universe of elements x environments x properties: a search. Two recorded known findings.",
+        "note": "Trusted: Lean kernel, correspondence harness, the evaluator's reading of the cascade (layers, importance, specificity, order) for compound selectors only. Colour-space maths, gradients, nesting expansion and CSS modules are not covered yet.",
+        "technique": "Lean 4 proof on hand-written model + differential correspondence; cascade-evaluator search",
     },
 }
 
